@@ -113,7 +113,14 @@ def plot_live_points(
     df = df.dropna(axis="columns", how="all")
     df = df[np.isfinite(df).all(1)]
 
-    if c is not None:
+    if c is not None and c not in df:
+        # Columns that only contain NaNs are dropped, e.g. the log-likelihood
+        # of samples that have not been evaluated yet
+        logger.warning(
+            f"Selected hue variable: {c} is not available! Disabling."
+        )
+        hue = None
+    elif c is not None:
         hue = df[c]
         if np.all(hue == hue[0]):
             logger.warning(
